@@ -7,7 +7,7 @@
 From Coq Require Import List Ascii String NArith Bool.
 From Coq Require Import Arith.
 From Martian.C14 Require Import Gen_HopByHop Gen_Stack Gen_Shared Model Proofs_Base Proofs_Stack Proofs_Spec
-  Proofs_Conc Proofs_Audit Proofs_Chain.
+  Proofs_Conc Proofs_Audit Proofs_Chain Proofs_Framing.
 Import ListNotations.
 
 Lemma gen_req_order : req_order = expected_req_order.
@@ -334,3 +334,21 @@ Lemma s_chain_loop : forall es h e0 e',
     List.length outs = List.length es /\
     o_err o = Some ELoop /\ o_skip o = true /\ o_inner o = false.
 Proof. intros es h e0 e' H Hin Ht. rewrite chain_is_chain_m. exact (chain_m_loop es h e0 e' H Hin Ht). Qed.
+
+(* ---------------- the final transfer-coding as a token ---------------- *)
+
+Lemma s_te_token :
+  (forall h, te_bad h = true <->
+     values h K_TE <> [] /\ trim (last (te_elems (values h K_TE)) []) <> CHUNKED) /\
+  (forall tes tes', tes <> [] -> tes' <> [] ->
+     trim (last (te_elems tes) []) = trim (last (te_elems tes') []) ->
+     te_last_ok tes = te_last_ok tes') /\
+  (forall h lines rest elem, ~ In comma elem ->
+     (values h K_TE = lines ++ [rest ++ comma :: elem] \/ values h K_TE = lines ++ [elem]) ->
+     (te_bad h = true <-> trim elem <> CHUNKED)) /\
+  (forall e h, te_bad h = true -> o_err (stack_req e h) = Some EFraming).
+Proof.
+  split; [exact te_bad_iff|]. split; [exact te_flag_depends_on_last_element_only|].
+  split; [exact te_final_token_decides|].
+  intros e h H. apply (proj1 (t_flagged e h)). unfold bad_framing. rewrite H. apply orb_true_r.
+Qed.
